@@ -702,6 +702,11 @@ fn c06_check(case: &SimCase, st: &mut Stats) -> Result<(), String> {
         if restarted_at_heal {
             st.class("node_down_at_heal");
         }
+        // the fair suffix is about correct validators that stay up: a death armed by the prefix (CrashInWrite) and not
+        // yet reached must not strike during it
+        for i in w.correct() {
+            w.node(i).engine.st.lock().unwrap().crash = None;
+        }
         if result.is_ok() {
             // the delivery order of the suffix is a function of the case (so that replays agree)
             let order = (common::fingerprint(&case.actions) % 3) as u8;
